@@ -204,6 +204,8 @@ def run_solver_plan(plan, oracle_classes, hang_is=None, budget=None):
                     r = h.do(op)
                     if r.get('exc') == 'KeyboardInterrupt':
                         break         # Ctrl-C with no handler installed: the user's program ends here
+                    if r.get('exc') == 'SimFault':
+                        break         # an injected I/O error reached the caller: the user's program ends here
             except env.SimHang as e:
                 if hang_is:
                     h.violate(hang_is[0], hang_is[1], detail=str(e))
@@ -211,6 +213,7 @@ def run_solver_plan(plan, oracle_classes, hang_is=None, budget=None):
                     raise env.HarnessError("unexpected hang: %s" % e)
             viol = h.finish()
             final = h.snap()
+            reach_probes(plan, run, h)
     finally:
         run.fs.cleanup()
         env.end()
@@ -220,6 +223,48 @@ def run_solver_plan(plan, oracle_classes, hang_is=None, budget=None):
             'nontrivial': len(run.evals) > 1 and h.steps_executed > 1,
             'stats': {'cost_calls': len(run.evals), 'steps': h.steps_executed, 'ops': len(plan['ops']),
                       'seam_crossings': run.ncross}}
+
+
+def reach_probes(plan, run, h):
+    """'this condition was actually exercised' counters for the evidence file (plan features that
+    were executed + runtime facts); never draws, never reads a clock"""
+    P = run.probe
+    P('solver.%s' % plan['solver'])
+    P('cost.%s' % plan['cost']['model'])
+    started = False
+    for (i, op, res) in h.history:
+        k = op['op']
+        if k == 'set':
+            w = op['what']; a = op.get('arg')
+            tag = 'midrun' if started else 'initial'
+            if w == 'bounds':
+                if not a: P('bounds.removed.%s' % tag)
+                else:
+                    P('bounds.%s.tight=%s.clip=%s' % (tag, a.get('tight'), a.get('clip')))
+                    if any(l == u for l, u in zip(a['lo'], a['hi'])): P('bounds.degenerate_side')
+                    if any(abs(v) == inf for v in a['lo'] + a['hi']): P('bounds.infinite_side')
+            elif w == 'constraint' and a: P('constraint.%s.%s.%s' % (tag, a['family'], a.get('form')))
+            elif w == 'penalty' and a: P('penalty.%s.%s' % (tag, a['kind']))
+            elif w == 'reducer' and a: P('reducer.%s' % a)
+            elif w == 'termination' and a: P('termination.%s.%s' % (tag, a['t']))
+            elif w == 'limits':
+                g, e = a[0], a[1]
+                P('limits.%s%s' % (tag, '.new' if (len(a) > 2 and a[2]) else ''))
+                if g in (0, 1) or e in (0, 1): P('limits.zero_or_one')
+            elif w in ('stepmon', 'evalmon') and a: P('%s.%s.%s' % (w, tag, a.get('kind')))
+            elif w in ('objective', 'handler', 'de'): P('set.%s' % w)
+        elif k in ('step', 'solve', 'finalize'):
+            P('op.%s' % k)
+            if k != 'finalize': started = True
+            if res.get('steps', 0) == 0 and k != 'finalize': P('op.%s.no_iteration_executed' % k)
+            ret = res.get('ret')
+            msgs = ret if isinstance(ret, tuple) else ((ret,) if ret else ())
+            for m in msgs:
+                if m:
+                    for part in str(m).split('; '): P('stop.%s' % part.split(' ')[0])
+    if any(isinstance(e.y, float) and abs(e.y) == inf for e in run.evals): P('cost_returned_inf')
+    if any(isinstance(e.y, float) and e.y != e.y for e in run.evals): P('cost_returned_nan')
+    if h.steps_executed > h.THIN_AFTER: P('long_run_thinned')
 
 
 def simplify_solver_plan(plan):
